@@ -60,11 +60,15 @@ static int add_integer(yaml_document_t *document, int value)
  */
 static int add_double(yaml_document_t *document, double value, int precision)
 {
-    char buf[3 * sizeof(double) + 10];
+    char buf[precision + 3 * sizeof(double) + 10];
     int tag;
 
     assert(precision >= 1);
-    (void)sprintf(buf, "%.*e", precision - 1, value);
+    if (precision == VNACAL_MAX_PRECISION) {
+	(void)sprintf(buf, "%a", value);
+    } else {
+	(void)sprintf(buf, "%.*e", precision - 1, value);
+    }
     if ((tag = yaml_document_add_scalar(document, NULL,
 		    (yaml_char_t *)buf, strlen(buf),
 		    YAML_ANY_SCALAR_STYLE)) == 0) {
@@ -84,7 +88,7 @@ static int add_complex(yaml_document_t *document, double complex value,
 {
     double real = creal(value);
     double imag = cimag(value);
-    char buf[3 * sizeof(double complex) + 20];
+    char buf[2 * precision + 3 * sizeof(double complex) + 20];
     int tag;
 
     assert(precision >= 1);
